@@ -129,6 +129,85 @@ def enum_note(tier, shard, nshards):
                 yield {"keys": keys, "case": 0, "all_orders": True, "note": note}
 
 
+# ------------------------------------------------------------------------------------ GFF3 gene rows: key priority on the parser side
+
+GFF_SYMBOL_KEYS = ["gene_name", "gene_symbol", "gene", "Name"]     # documented order in io/gff3/parser._parse_genes
+GFF_BIOTYPE_KEYS = ["gene_biotype", "gene_type"]
+GFF_ID_KEYS = ["gene_id", "ID"]
+
+
+def enum_gff3_gene_keys(tier, shard, nshards):
+    """one file per shard; each file holds one gene per (subset of symbol keys in one ordering) x (biotype key order) x (gene_id before /
+    after / absent): every ordering of every subset - the attribute order of a GFF3 row is arbitrary"""
+    cases = []
+    for k in range(0, len(GFF_SYMBOL_KEYS) + 1):
+        for combo in itertools.combinations(GFF_SYMBOL_KEYS, k):
+            for order in itertools.permutations(combo):
+                for bio in ([], ["gene_biotype"], ["gene_type"], ["gene_biotype", "gene_type"], ["gene_type", "gene_biotype"]):
+                    for gid in ("absent", "first", "last"):
+                        cases.append({"symbol_keys": list(order), "biotype_keys": bio, "gene_id": gid})
+    per = (len(cases) + nshards - 1) // nshards
+    chunk = cases[shard * per:(shard + 1) * per]
+    if chunk:
+        yield {"cases": chunk}
+
+
+def check_gff3_gene_keys(spec, ctx):
+    import os
+    import tempfile
+    import warnings
+    from inscripta.biocantor.io.gff3.parser import parse_standard_gff3
+    lines = ["##gff-version 3"]
+    exp = {}
+    bios = {"gene_biotype": "lncRNA", "gene_type": "tRNA"}
+    for i, c in enumerate(spec["cases"]):
+        s0 = 100 + i * 100
+        rid = "row%d" % i
+        attrs = []
+        sym_attrs = ["%s=sym_%s_%d" % (k, k.lower(), i) for k in c["symbol_keys"]]
+        bio_attrs = ["%s=%s" % (k, bios[k]) for k in c["biotype_keys"]]
+        gid_attr = "gene_id=gid%d" % i
+        # GFF3 allows attributes in any order; ID is not required to come first
+        body = sym_attrs + bio_attrs
+        if c["gene_id"] == "first":
+            attrs = [gid_attr] + body + ["ID=" + rid]
+        elif c["gene_id"] == "last":
+            attrs = ["ID=" + rid] + body + [gid_attr]
+        else:
+            attrs = body + ["ID=" + rid] if i % 2 else ["ID=" + rid] + body
+        lines.append("\t".join(["chrG", "test", "gene", str(s0 + 1), str(s0 + 50), ".", "+", ".", ";".join(attrs)]))
+        lines.append("\t".join(["chrG", "test", "mRNA", str(s0 + 1), str(s0 + 50), ".", "+", ".", "ID=tx%d;Parent=%s;transcript_id=tx%d" % (i, rid, i)]))
+        lines.append("\t".join(["chrG", "test", "exon", str(s0 + 1), str(s0 + 50), ".", "+", ".", "ID=ex%d;Parent=tx%d" % (i, i)]))
+        want_sym = next(("sym_%s_%d" % (k.lower(), i) for k in GFF_SYMBOL_KEYS if k in c["symbol_keys"]), None)
+        want_bio = next((bios[k] for k in GFF_BIOTYPE_KEYS if k in c["biotype_keys"]), None)
+        want_id = "gid%d" % i if c["gene_id"] != "absent" else rid
+        exp[s0] = (want_sym, want_bio, want_id, c)
+        if len(c["symbol_keys"]) >= 2 and c["symbol_keys"][0] != next(k for k in GFF_SYMBOL_KEYS if k in c["symbol_keys"]):
+            ctx.label("lower_priority_key_written_first")
+    fd, path = tempfile.mkstemp(suffix=".gff3", prefix="verif_c18_")
+    try:
+        with os.fdopen(fd, "w") as fh:
+            fh.write("\n".join(lines) + "\n")
+        with warnings.catch_warnings():
+            warnings.simplefilter("ignore")
+            recs = list(parse_standard_gff3(path))
+    finally:
+        os.remove(path)
+    ctx.nt()
+    if not ctx.eq("one_record", len(recs), 1):
+        return
+    genes = recs[0].annotation.to_annotation_collection().genes
+    ctx.eq("gene_count", len(genes), len(exp))
+    for g in genes:
+        want = exp.get(g.start)
+        if want is None:
+            ctx.fail("unexpected_gene", g.start)
+            continue
+        ctx.eq("gff3_gene_symbol_by_priority", g.gene_symbol, want[0], extra=want[3])
+        ctx.eq("gff3_gene_biotype_by_priority", g.gene_type.name if g.gene_type else None, want[1], extra=want[3])
+        ctx.eq("gff3_gene_id_by_priority", g.gene_id, want[2], extra=want[3])
+
+
 # ------------------------------------------------------------------------------------ types and merge
 
 TYPE_KEYS = ["feature_class", "gbkey", "regulatory_type", "GBKEY", "Mobile_Element_Type", "my_class", "xgbkeyx", "ncRNA_class", "types"]
@@ -293,6 +372,8 @@ PROP = Prop(
             rule="all subsets of size <=4 (quick) / <=5 (thorough) of the 9 recognised keys + 9 look-alike keys, each in ALL orderings, keys in 4 letter-case patterns (size<=3)"),
         Leg("name_id_random", check_name_id_random, strategy=strat_name_id, n_quick=400, n_thorough=5000,
             rule="subsets of size 5..9 in 8 random orderings each, with and without a /note"),
+        Leg("gff3_gene_keys", check_gff3_gene_keys, enumerate=enum_gff3_gene_keys, exhaustive=True, shards_quick=4, shards_thorough=4, must_hit=["lower_priority_key_written_first"],
+            rule="GFF3 gene rows carrying every subset of the symbol keys (gene_name > gene_symbol > gene > Name) in every attribute order x every order of the biotype keys (gene_biotype > gene_type) x gene_id written before / after ID or absent, parsed by parse_standard_gff3: symbol, biotype and id must follow the documented priority whatever the attribute order"),
         Leg("note_fallback", check_name_id, enumerate=enum_note, exhaustive=True, shards_quick=1, shards_thorough=1, must_hit=["note_fallback"],
             rule="no recognised key present: name and id fall back to the first word of /note"),
         Leg("types_merge", check_types_merge, strategy=strat_types, n_quick=1500, n_thorough=15000, must_hit=["type_key_present", "shared_keys"],
